@@ -18,7 +18,7 @@
 //                                   a NON-contiguous redistribution with ranks becoming empty
 //   mrebuild rx direct <part> A f   mpi::amg (allow_rebuild) : apply, rebuild(64 A), apply; fresh amg on 64 A
 //   mzero <part> d f                a diagonal matrix: no aggregates, zero-sized coarse level (amg.hpp:299-302, 384-389)
-//   mrtbad which                    run-time wrappers given an enumeration value they do not support: every rank throws
+//   mrtbad which                    run-time wrappers given a component name they do not know: every rank throws
 // Oracles (rank 0, gathered data; the result line only summarises):
 //   * (iters, resid) bitwise identical on all ranks                                                           [property]
 //   * the true residual of the gathered solution (long double) is within 1e-8 of the reported one             [test]
@@ -53,6 +53,7 @@
 #include <amgcl/mpi/coarsening/smoothed_aggregation.hpp>
 #include <amgcl/mpi/relaxation/spai0.hpp>
 #include <amgcl/mpi/relaxation/damped_jacobi.hpp>
+#include <amgcl/mpi/relaxation/ilu0.hpp>
 #include <amgcl/mpi/direct_solver/skyline_lu.hpp>
 #include <amgcl/mpi/partition/merge.hpp>
 #include <amgcl/mpi/partition/util.hpp>
@@ -275,7 +276,13 @@ static Result execute(const Toks &t) {
         std::tie(o.iters, o.resid) = solve(rhs, xx); o.x.assign(xx.data(), xx.data() + nl);
         // preonly applies the preconditioner once; richardson / relaxation-as-preconditioner converge slowly: truthfulness and rank consistency only
         const bool must = st != 8 && !(pc == 1) && st != 7;
-        check_solve(r, x, s.A, s.P, s.F, o, must, std::string("run-time ") + SNAME[st]);
+        if (st == 8) {   // preonly: one application of the preconditioner, returns the placeholder (0, 0) by design (solver/preonly.hpp)
+            std::vector<double> its, res; bool same_it = same_on_all(x, (double)o.iters, its), same_res = same_on_all(x, o.resid, res); auto X = gather_vec(x, o.x, s.P);
+            if (x.rank) return r;
+            if (!same_it || !same_res || o.iters != 0 || o.resid != 0) r.fail("run-time preonly: (iters, resid) is not the documented (0, 0) on every rank");
+            for (long i = 0; i < s.A.n; ++i) { if (!std::isfinite(X[i])) r.fail("run-time preonly: non-finite component"); if (pc == 1) { long double d = 0, q = 0; for (auto j = s.A.ptr[i]; j < s.A.ptr[i+1]; ++j) { long double v = s.A.val[j].v.get_d(); q += v * v; if (s.A.col[j] == i) d = v; } long double want = d / q * s.F[i]; if (!(std::fabs(want - X[i]) <= 1e-12L * std::max<long double>(1.0L, std::fabs(want)))) r.fail("run-time preonly + spai0: x[" + std::to_string(i) + "] is not (a_ii / sum_j a_ij^2) f_i"); } }
+            r.tag("np" + std::to_string(x.np));
+        } else check_solve(r, x, s.A, s.P, s.F, o, must, std::string("run-time ") + SNAME[st]);
         if (x.rank) return r;
         if (st == 7 && pc == 0 && !(o.resid <= TOL)) r.fail("test: run-time richardson + amg: not converged within 2000 iterations: resid=" + std::to_string(o.resid));
         r.out = (Line() << "solved" << SNAME[st]).get(); r.nontrivial = o.iters >= 1 && x.np > 1; r.tag("mrtsolve"); r.tag(std::string("rt_") + SNAME[st]); r.tag(pc ? "rt_relaxation" : "rt_amg_repart");
@@ -302,7 +309,7 @@ static Result execute(const Toks &t) {
         r.out = (Line() << "converged" << (long)g_lev.size() << (long)g_perm.size()).get(); r.nontrivial = o.iters >= 1 && x.np > 1 && !g_perm.empty();
         r.tag("mscatter"); r.tag("levels" + std::to_string(g_lev.size() + 1)); if (g_perm.empty()) r.tag("no_redistribution");
     } else if (op == "mrebuild") {
-        long rx = c.nat(), direct = c.nat(); need(rx >= 0 && rx <= 1 && (direct == 0 || direct == 1));
+        long rx = c.nat(), direct = c.nat(); need(rx >= 0 && rx <= 2 && (direct == 0 || direct == 1));
         Sys s = parse_sys(c);
         Ctx x = ctx_for(s.P.np()); if (!x.active) return r;
         std::vector<ptrdiff_t> ptr, col; std::vector<double> val, val64; strip(s.A, s.P, x.rank, ptr, col, val); size_t nl = ptr.size() - 1; for (double v : val) val64.push_back(64.0 * v);
@@ -319,17 +326,21 @@ static Result execute(const Toks &t) {
         typedef amgcl::mpi::coarsening::aggregation<BD> Ag; typedef amgcl::mpi::direct::skyline_lu<double> Dir; typedef amgcl::mpi::partition::merge<BD> Mg;
         struct T0 { typedef amgcl::mpi::amg<BD, Ag, amgcl::mpi::relaxation::spai0<BD>, Dir, Mg> type; };
         struct T1 { typedef amgcl::mpi::amg<BD, Ag, amgcl::mpi::relaxation::damped_jacobi<BD>, Dir, Mg> type; };
-        if (rx == 0) go(T0()); else go(T1());
+        struct T2 { typedef amgcl::mpi::amg<BD, Ag, amgcl::mpi::relaxation::ilu0<BD>, Dir, Mg> type; };
+        if (rx == 0) go(T0()); else if (rx == 1) go(T1()); else go(T2());
         auto Y0 = gather_vec(x, y0, s.P), Y1 = gather_vec(x, y1, s.P), Y2 = gather_vec(x, y2, s.P), Y3 = gather_vec(x, y3, s.P);
         if (x.rank) return r;
+        // scaling by a power of two is exact in every operation; what may differ between the first setup and a rebuild is
+        // the ORDER of the entries inside the rows of the coarse matrices (the first setup sorts them, a Galerkin product
+        // does not), i.e. the order of summation: agreement to 1e-10 relative, never a factor
+        long double sc = 0; for (double v : Y0) sc = std::max<long double>(sc, std::fabs(v)); const long double tol = 1e-10L * std::max<long double>(sc, 1e-300L);
         for (long i = 0; i < s.A.n && r.ok; ++i) {
-            double want = Y0[i] / 64.0;
-            if (std::memcmp(&Y1[i], &want, sizeof(double))) r.fail("rebuild(64 A): the preconditioner must scale by exactly 1/64: component " + std::to_string(i) + " is " + qd(Y1[i]).str() + ", before the rebuild / 64 = " + qd(want).str());
-            else if (std::memcmp(&Y1[i], &Y2[i], sizeof(double))) r.fail("rebuild(64 A) differs from a freshly built hierarchy of 64 A at component " + std::to_string(i));
-            else if (std::memcmp(&Y3[i], &Y0[i], sizeof(double))) r.fail("rebuild back to A does not reproduce the original preconditioner at component " + std::to_string(i));
+            if (!(std::fabs((long double)Y1[i] * 64 - Y0[i]) <= tol)) r.fail("rebuild(64 A): the preconditioner must scale by 1/64: component " + std::to_string(i) + " is " + std::to_string(Y1[i]) + ", before the rebuild / 64 = " + std::to_string(Y0[i] / 64.0));
+            else if (!(std::fabs((long double)Y1[i] * 64 - (long double)Y2[i] * 64) <= tol)) r.fail("rebuild(64 A) differs from a freshly built hierarchy of 64 A at component " + std::to_string(i) + ": " + std::to_string(Y1[i]) + " vs " + std::to_string(Y2[i]));
+            else if (!(std::fabs((long double)Y3[i] - Y0[i]) <= tol)) r.fail("rebuild back to A does not reproduce the original preconditioner at component " + std::to_string(i) + ": " + std::to_string(Y3[i]) + " vs " + std::to_string(Y0[i]));
         }
         bool nz = false; for (double v : Y0) if (v != 0) nz = true;
-        r.out = "rebuilt"; r.nontrivial = nz && x.np > 1; r.tag("mrebuild"); r.tag(direct ? "direct_coarse" : "relaxed_coarse"); r.tag("np" + std::to_string(x.np));
+        r.out = "rebuilt"; r.nontrivial = nz && x.np > 1; r.tag("mrebuild"); r.tag("rebuild_rx" + std::to_string(rx)); r.tag(direct ? "direct_coarse" : "relaxed_coarse"); r.tag("np" + std::to_string(x.np));
     } else if (op == "mzero") {
         Part P = part(c); auto dq = c.vec(), fq = c.vec(); c.expect_end(); need((long)dq.size() == P.sum && (long)fq.size() == P.sum && P.sum > 3); for (auto &d : dq) need(d > 0);
         Sys s; s.P = P; s.F = dvec(fq); std::vector<std::vector<std::pair<long,Q>>> rows(P.sum); for (long i = 0; i < P.sum; ++i) { exact(dq[i]); rows[i].push_back({i, dq[i]}); } s.A = from_rows(P.sum, P.sum, rows);
@@ -350,14 +361,16 @@ static Result execute(const Toks &t) {
         auto D = make_dm(x, A, P, P); bool threw = false;
         try {
             PT p;
-            if (which == 0) { p.put("type", (amgcl::runtime::relaxation::type)99); amgcl::runtime::mpi::relaxation::wrapper<BD> w(*D, p); }
-            else if (which == 1) { p.put("type", (amgcl::runtime::mpi::coarsening::type)99); amgcl::runtime::mpi::coarsening::wrapper<BD> w(p); }
-            else if (which == 2) { p.put("type", (amgcl::runtime::mpi::direct::type)99); amgcl::runtime::mpi::direct::solver<double> w(x.comm, *D->local(), p); }
-            else { p.put("class", (amgcl::runtime::mpi::precond_class::type)99); amgcl::runtime::mpi::preconditioner<BD> w(x.comm, D, p); }
+            // (the `default:` branches of the wrappers' switches cannot be reached without an invalid enumeration VALUE,
+            // which is undefined behaviour on the caller's side; what a user can get wrong is the NAME)
+            if (which == 0) { p.put("type", "no_such_relaxation"); amgcl::runtime::mpi::relaxation::wrapper<BD> w(*D, p); }
+            else if (which == 1) { p.put("type", "no_such_coarsening"); amgcl::runtime::mpi::coarsening::wrapper<BD> w(p); }
+            else if (which == 2) { p.put("type", "no_such_direct_solver"); amgcl::runtime::mpi::direct::solver<double> w(x.comm, *D->local(), p); }
+            else { p.put("class", "no_such_class"); amgcl::runtime::mpi::preconditioner<BD> w(x.comm, D, p); }
         } catch (const std::invalid_argument &) { threw = true; } catch (const std::exception &) { threw = true; }
         bool all = all_true(x, threw);
         if (x.rank) return r;
-        if (!all) r.fail("a run-time wrapper accepted an unsupported enumeration value on some rank");
+        if (!all) r.fail("a run-time wrapper accepted an unknown component name on some rank");
         r.out = threw ? "invalid_argument" : "accepted"; r.nontrivial = x.np > 1; r.tag("mrtbad" + std::to_string(which));
     } else r.out = "bad-op";
     return r;
@@ -392,7 +405,7 @@ static void generate(Rng &rng, const Opts &o, std::vector<std::string> &lines) {
     }
     for (long k = 0; k < 12 * scale; ++k) {        // mrebuild
         int np = (int)rng.range(1, W); Mat A = gen_spd(rng, rng.range(6, 36), (int)rng.range(0, 3), 4);
-        Line l; l << "mrebuild" << (long)(k % 2) << (long)((k / 2) % 2); lp(l, rand_part(rng, A.n, np)); l << A << gen_vec(rng, A.n, true); lines.push_back(l.get());
+        Line l; l << "mrebuild" << (long)(k % 3) << (long)((k / 3) % 2); lp(l, rand_part(rng, A.n, np)); l << A << gen_vec(rng, A.n, true); lines.push_back(l.get());
     }
     for (long k = 0; k < 4 * scale; ++k) { int np = (int)rng.range(1, W); long n = rng.range(4, 14); std::vector<Q> d(n); for (auto &v : d) v = Q::frac(rng.range(1, 8), 2); Line l; l << "mzero"; lp(l, rand_part(rng, n, np)); l << d << gen_vec(rng, n, true); lines.push_back(l.get()); }
     for (long w = 0; w < 4; ++w) { Line l; l << "mrtbad" << w; lines.push_back(l.get()); }
